@@ -85,15 +85,21 @@ def declare(rep):
     rep.rule("C09.compose", "affine*affine == (A1*A2 | A1*t2 + t1): right factor first", floor=8)
     rep.rule("C09.factory", "translation/scaling/identity entries are exactly 0, 1 or the argument at the textbook position", floor=12)
     rep.rule("C09.layer", "layer lookup: one backend query at (A*c+t)_i per component, result routed unchanged", floor=4)
+    rep.rule("C09.precision", "the whole computation stays in the transform's scalar type: no fptrunc/fpext between inputs and results", floor=10)
 
 
-def run(rep, tier):
+def harnesses(tier):
     Ns = (1, 2, 3) if tier == "quick" else (1, 2, 3, 4)
     Ts = ("float", "double")
     hs = []
     for N in Ns:
         for T in Ts:
             hs += [h_apply(N, T), h_compose(N, T), h_factory(N, T, "translation"), h_factory(N, T, "scaling"), h_factory(N, T, "identity"), h_layer(N, T, (N % 4) + 1)]
+    return hs
+
+
+def run(rep, tier):
+    hs = harnesses(tier)
     harness.build(hs, "c09", per_tu=8)
     for h in hs:
         N, T, kind = h.meta["N"], h.meta["T"], h.meta["kind"]
@@ -108,6 +114,12 @@ def run(rep, tier):
         if s.unknown:
             raise AnalysisBroken("C09 %s: unmodelled instruction %s at %s" % (inst, s.unknown[0]["op"], ir.where(s.unknown[0])))
         outs = s.outputs(h.out_index, *( (4, 'float') if h.meta['kind'] == 'layer' else (tsz, T)))
+        pterms = [c.args[1 + i] for c in s.opaque_calls("_ZN5verif4sink") for i in range(len(c.args) - 1)] if kind == "layer" else list(outs.values())
+        pc = [c for t in pterms for c in ir.fp_casts(t)]
+        if pc:
+            rep.fail("C09.precision", inst, LAYER if kind == "layer" else ALG, "computation declared in %s changes floating-point precision on the way: %s" % (T, ir.show(pc[0][0])[:160]))
+        else:
+            rep.ok("C09.precision", inst)
         names = {('arg', i): ("%s%s" % (r[0], "".join(map(str, r[1:]))) if isinstance(r, tuple) else r) for i, (_, r) in enumerate(h.args)}
         A = lambda i, j: P(h.atom(('A', i, j)))
         if kind == "apply":
